@@ -2,6 +2,7 @@
 # NOTE: no `from __future__ import annotations`
 import json
 import os
+import re
 import shutil
 import subprocess
 import sys
@@ -22,19 +23,24 @@ RULE = (
     "line deltas), optional 600..70000 leading blank lines (large VLQ deltas); compiled in a fresh subprocess that "
     "enables the sourcemap feature gate before importing pyteal, with_sourcemap=True x annotate_teal x headers x "
     "concise, versions 6..10. Oracle: TEAL with map == TEAL from compileTeal without; the R3 map has exactly one entry "
-    "per TEAL line, in order, column 0; every entry names an existing file and an existing line of it; the TEAL line "
+    "per TEAL line, in order, column 0; every entry (and every `sources` item of the JSON) names a file that exists when resolved against the map's sourceRoot and is one of the generated files, with an existing line of it; the TEAL line "
     "carrying marker k is attributed to the (file, line) where k was written; R3SourceMap.from_json(to_json()) gives the "
     "same (line, column, source, source_line, source_column) tuples and so does an INDEPENDENT base64-VLQ decoder of the "
     "`mappings` string; annotated TEAL with comments stripped (quote-aware lexer) equals the plain TEAL line by line. "
     "(2) Pure functions: _base64vlq_decode(_base64vlq_encode(*v)) == v for integer tuples (|v| up to 2^40). "
     "non-trivial = >= 10 marker lines and (>= 1 subroutine or >= 2 files); VLQ cases with a negative or >= 2^15 value; "
-    "distinct by generated sources."
+    "Histories: 1..3 compilations of the program in ONE process with os.chdir() between them into directories of different depth; lines that also carry import/def/decorator-like words in a trailing comment or inside a Bytes literal; modules using `import pyteal` / `import pyteal as pt` qualified names. distinct by generated sources."
 )
 ASSUMPTIONS = ["PC-level maps need algod and are out of scope", "vf/teal/parser.py tokenizer for comment stripping"]
 SHARDS = {"quick": 16, "thorough": 16}
 N_EX = {"quick": 6, "thorough": 150}
 MIN_NONTRIVIAL = {"quick": 40, "thorough": 1000}
 WORKER = os.path.join(env.VERIF_DIR, "vf", "c15_worker.py")
+TRICKY_TEXT = [
+    "keep in sync with the pyteal import order", "do not import this one", "import pyteal", "from pyteal import *",
+    "pyteal.Int import", "def program():", "@Subroutine(TealType.uint64)", "return Seq(", "see pyteal/compiler/compiler.py",
+    "lambda x: x", "class A: pass", "import os", "pyteal",
+]
 B64 = "ABCDEFGHIJKLMNOPQRSTUVWXYZabcdefghijklmnopqrstuvwxyz0123456789+/"
 
 
@@ -79,9 +85,11 @@ def decode_mappings(j):
 
 
 class Src:
-    def __init__(self, name, blank=0):
+    def __init__(self, name, blank=0, style=0):
         self.name = name
-        self.lines = ["from pyteal import *"] + [""] * blank
+        self.style = style
+        self.pfx = ["", "pyteal.", "pt."][style]
+        self.lines = [["from pyteal import *", "import pyteal", "import pyteal as pt"][style]] + [""] * blank
         self.markers = {}  # marker key -> 1-based line
 
     def add(self, text, marker=None):
@@ -97,34 +105,53 @@ class Src:
 @st.composite
 def sources_strategy(draw):
     nfiles = draw(st.sampled_from([1, 1, 2, 3]))
-    files = [Src("c15_main", blank=draw(st.sampled_from([0, 0, 0, 600, 5000, 70000])))]
+    files = [Src("c15_main", blank=draw(st.sampled_from([0, 0, 0, 600, 5000, 70000])), style=draw(st.sampled_from([0, 0, 1, 2])))]
     for i in range(1, nfiles):
-        files.append(Src(draw(st.sampled_from(["aa_consts", "zz_helpers", "mm_logic"])) + str(i), blank=draw(st.sampled_from([0, 0, 300, 20000]))))
+        files.append(Src(draw(st.sampled_from(["aa_consts", "zz_helpers", "mm_logic"])) + str(i), blank=draw(st.sampled_from([0, 0, 300, 20000])), style=draw(st.sampled_from([0, 0, 1, 2]))))
     mk = [0]
+    tr = [0]
+    cur = [files[0]]
 
     def marker():
+        """a constant that identifies its source line; sometimes the line also carries text that resembles other
+        source constructs (the words of an import statement, a def, a decorator) in a comment or inside the literal"""
         mk[0] += 1
         k = mk[0]
+        P = cur[0].pfx
+        tail = ""
+        if draw(st.integers(0, 4)) == 0:
+            tail = "  # " + draw(st.sampled_from(TRICKY_TEXT))
+            tr[0] += 1
         if draw(st.integers(0, 3)) == 0:
-            return "Bytes(\"mk%d\")" % k, ("b", k), "B"
-        return "Int(%d)" % (1000000 + k), ("i", k), "U"
+            inner = ""
+            if draw(st.integers(0, 2)) == 0:
+                inner = " " + draw(st.sampled_from(TRICKY_TEXT))
+                tr[0] += 1
+            return "%sBytes(\"mk%d%s\")" % (P, k, inner), ("b", k), "B", tail
+        return "%sInt(%d)" % (P, 1000000 + k), ("i", k), "U", tail
 
     helpers = []  # (module index, name, kind)
     nh = draw(st.integers(0, 3))
     defs_after = draw(st.booleans())
 
+    def umarker():
+        while True:
+            e, key, t, tail = marker()
+            if t == "U":
+                return e, key, t, tail
+
     def define_helper(f, idx, name, kind):
+        cur[0] = f
+        P = f.pfx
         if kind == "sub":
-            f.add("@Subroutine(TealType.uint64)")
+            f.add("@%sSubroutine(%sTealType.uint64)" % (P, P))
         f.add("def %s(x):" % name)
-        f.add("    return Seq(")
+        f.add("    return %sSeq(" % P)
         for _ in range(draw(st.integers(0, 2))):
-            e, key, t = marker()
-            f.add("        Pop(%s)," % e, key)
-        e, key, t = marker()
-        while t != "U":
-            e, key, t = marker()
-        f.add("        x + %s," % e, key)
+            e, key, t, tail = marker()
+            f.add("        %sPop(%s),%s" % (P, e, tail), key)
+        e, key, t, tail = umarker()
+        f.add("        x + %s,%s" % (e, tail), key)
         f.add("    )")
         f.add("")
 
@@ -143,53 +170,45 @@ def sources_strategy(draw):
         for fi, name, kind in helpers:
             if fi == 0:
                 define_helper(main, 0, name, kind)
+    cur[0] = main
+    P = main.pfx
     main.add("def program():")
-    main.add("    return Seq(")
+    main.add("    return %sSeq(" % P)
     nst = draw(st.integers(3, 14))
     depth_pad = "        "
     for _ in range(nst):
         k = draw(st.integers(0, 9))
         if k <= 4:
-            e, key, t = marker()
-            main.add(depth_pad + "Pop(%s)," % e, key)
+            e, key, t, tail = marker()
+            main.add(depth_pad + "%sPop(%s),%s" % (P, e, tail), key)
         elif k <= 6 and helpers:
             fi, name, kind = helpers[draw(st.integers(0, len(helpers) - 1))]
-            e, key, t = marker()
-            while t != "U":
-                e, key, t = marker()
+            e, key, t, tail = umarker()
             call = name if fi == 0 else "%s.%s" % (files[fi].name, name)
-            main.add(depth_pad + "Pop(%s(%s))," % (call, e), key)
+            main.add(depth_pad + "%sPop(%s(%s)),%s" % (P, call, e, tail), key)
         elif k == 7:
-            e, key, t = marker()
-            while t != "U":
-                e, key, t = marker()
-            main.add(depth_pad + "If(%s).Then(" % e, key)
+            e, key, t, tail = umarker()
+            main.add(depth_pad + "%sIf(%s).Then(%s" % (P, e, tail), key)
             for _ in range(draw(st.integers(1, 3))):
-                e2, key2, _t = marker()
-                main.add(depth_pad + "    Pop(%s)," % e2, key2)
+                e2, key2, _t, tail2 = marker()
+                main.add(depth_pad + "    %sPop(%s),%s" % (P, e2, tail2), key2)
             main.add(depth_pad + "),")
         elif k == 8:
-            e, key, t = marker()
-            while t != "U":
-                e, key, t = marker()
-            main.add(depth_pad + "Cond(")
-            main.add(depth_pad + "    [%s," % e, key)
-            e2, key2, _t = marker()
-            main.add(depth_pad + "     Pop(%s)]," % e2, key2)
-            e3, key3, t3 = marker()
-            while t3 != "U":
-                e3, key3, t3 = marker()
-            main.add(depth_pad + "    [%s, Pop(Int(0))]," % e3, key3)
+            e, key, t, tail = umarker()
+            main.add(depth_pad + "%sCond(" % P)
+            main.add(depth_pad + "    [%s,%s" % (e, tail), key)
+            e2, key2, _t, tail2 = marker()
+            main.add(depth_pad + "     %sPop(%s)],%s" % (P, e2, tail2), key2)
+            e3, key3, t3, tail3 = umarker()
+            main.add(depth_pad + "    [%s, %sPop(%sInt(0))],%s" % (e3, P, P, tail3), key3)
             main.add(depth_pad + "),")
         else:
-            e, key, t = marker()
-            main.add(depth_pad + "Assert(")
-            main.add(depth_pad + "    %s," % (e if t == "U" else "Len(%s)" % e), key)
+            e, key, t, tail = marker()
+            main.add(depth_pad + "%sAssert(" % P)
+            main.add(depth_pad + "    %s,%s" % (e if t == "U" else "%sLen(%s)" % (P, e), tail), key)
             main.add(depth_pad + "),")
-    e, key, t = marker()
-    while t != "U":
-        e, key, t = marker()
-    main.add(depth_pad + "%s," % e, key)
+    e, key, t, tail = umarker()
+    main.add(depth_pad + "%s,%s" % (e, tail), key)
     main.add("    )")
     main.add("")
     if defs_after:
@@ -197,7 +216,11 @@ def sources_strategy(draw):
             if fi == 0:
                 define_helper(main, 0, name, kind)
     return {"files": [{"name": f.name, "text": f.text(), "markers": [[list(k), v] for k, v in f.markers.items()]} for f in files],
-            "nmarkers": mk[0], "nsubs": sum(1 for h in helpers if h[2] == "sub"), "nfiles": nfiles}
+            "nmarkers": mk[0], "nsubs": sum(1 for h in helpers if h[2] == "sub"), "nfiles": nfiles,
+            "styles": [f.style for f in files], "tricky": tr[0]}
+
+
+WORKDIRS = ["", "ws", "ws/deeper", "ws/deeper/still"]
 
 
 def run_worker(case):
@@ -206,8 +229,10 @@ def run_worker(case):
         for f in case["sources"]["files"]:
             with open(os.path.join(d, f["name"] + ".py"), "w") as fh:
                 fh.write(f["text"])
+        os.makedirs(os.path.join(d, WORKDIRS[-1]))
         e = dict(os.environ, PYTHONHASHSEED="0", PYTHONDONTWRITEBYTECODE="1", VERIF_REPO=env.REPO)
-        p = subprocess.run([sys.executable, WORKER, d], input=json.dumps(dict(case["cfg"], main="c15_main")), capture_output=True, text=True, env=e, timeout=600)
+        job = dict(case["cfg"], main="c15_main", steps=case.get("steps") or [None])
+        p = subprocess.run([sys.executable, WORKER, d], input=json.dumps(job), capture_output=True, text=True, env=e, timeout=900)
         if p.returncode != 0:
             raise RuntimeError("c15 worker failed: %s" % p.stderr[-1500:])
         return json.loads(p.stdout), d
@@ -218,8 +243,24 @@ def run_worker(case):
 def run_case(case, col=None):
     if case.get("kind") == "vlq":
         return run_vlq(case)
-    out = []
     res, d = run_worker(case)
+    first = None
+    for ri, run in enumerate(res["runs"]):
+        out = judge_run(case, run, res["src_dir"], col if ri == 0 else None)
+        if out:
+            step = (case.get("steps") or [None])[ri]
+            return [(b, "compilation #%d of the process (working directory %s): %s" % (ri + 1, "unchanged" if step is None else "<sources>/" + step, m)) for b, m in out]
+        if "error" in run:
+            continue
+        if first is None:
+            first = run
+        elif run["plain"] != first["plain"]:
+            return [("history-changes-teal", "compilation #%d of the same program in one process gives different TEAL than the first" % (ri + 1))]
+    return []
+
+
+def judge_run(case, res, src_dir, col=None):
+    out = []
     if "error" in res:
         # the generated sources are valid programs: a failure to produce the map is a finding only if plain compile worked
         if "plain" in res:
@@ -238,16 +279,28 @@ def run_case(case, col=None):
         out.append(("entries-per-line", "the map has entries %s... for a program of %d lines (expected exactly one per line, in order, column 0)" % (keys[:6], len(lines))))
         return out
     files = {f["name"] + ".py": f for f in case["sources"]["files"]}
-    root = res.get("source_root") or ""
+    paths = {os.path.join(src_dir, n): n for n in files}
+    resolved = res.get("resolved") or {}
     for e in ents:
-        src = os.path.basename(e[2]) if e[2] else None
-        if src in files:
+        if e[2] is None:
+            out.append(("entry-without-source", "TEAL line %d has no source file" % (e[0] + 1)))
+            return out
+        real = resolved.get(e[2])
+        if real is None:
+            out.append(("entry-file-does-not-exist", "TEAL line %d is mapped to source %r which does not exist under sourceRoot %r" % (e[0] + 1, e[2], res.get("source_root"))))
+            return out
+        if real in paths:
+            src = paths[real]
             nlines = files[src]["text"].count("\n")
             if e[3] is None or not (0 <= e[3] < nlines):
                 out.append(("entry-line-out-of-file", "TEAL line %d is mapped to %s line %s, the file has %d lines" % (e[0] + 1, src, e[3], nlines)))
                 return out
-        elif src != "c15_worker.py":
-            out.append(("entry-unknown-file", "TEAL line %d is mapped to %r which is not one of the source files %s" % (e[0] + 1, e[2], sorted(files))))
+        elif real != os.path.realpath(WORKER):
+            out.append(("entry-unknown-file", "TEAL line %d is mapped to %r (= %s) which is neither one of the source files %s nor the compiling script" % (e[0] + 1, e[2], real, sorted(files))))
+            return out
+    for sname in res["json"].get("sources", []):
+        if resolved.get(sname) is None:
+            out.append(("json-source-does-not-exist", "the v3 JSON lists source %r which does not exist under its sourceRoot %r" % (sname, res["json"].get("sourceRoot"))))
             return out
     # markers
     where = {}
@@ -260,13 +313,15 @@ def run_case(case, col=None):
         key = None
         if len(toks) == 2 and toks[0] == "int" and toks[1].isdigit() and int(toks[1]) > 1000000:
             key = ("i", int(toks[1]) - 1000000)
-        elif len(toks) == 2 and toks[0] == "byte" and toks[1].startswith('"mk'):
-            key = ("b", int(toks[1][3:-1]))
+        elif len(toks) >= 2 and toks[0] == "byte" and toks[1].startswith('"mk'):
+            m = re.match(r'"mk(\d+)', toks[1])
+            key = ("b", int(m.group(1))) if m else None
         if key is None or key not in where:
             continue
         seen += 1
         e = ents[i]
-        got = (os.path.basename(e[2]) if e[2] else None, (e[3] + 1) if e[3] is not None else None)
+        real = resolved.get(e[2])
+        got = (paths.get(real, real), (e[3] + 1) if e[3] is not None else None)
         if got != where[key]:
             out.append(("marker-misattributed", "TEAL line %d `%s` was written at %s:%d but the map attributes it to %s:%s" % (i + 1, l, where[key][0], where[key][1], got[0], got[1])))
             return out
@@ -344,7 +399,11 @@ def shrinks(case):
 
 @st.composite
 def case_strategy(draw, tier):
-    return {"sources": draw(sources_strategy()), "cfg": {"version": draw(st.sampled_from([6, 8, 10])), "annotate": draw(st.booleans()), "headers": draw(st.booleans()), "concise": draw(st.booleans())}}
+    case = {"sources": draw(sources_strategy()), "cfg": {"version": draw(st.sampled_from([6, 8, 10])), "annotate": draw(st.booleans()), "headers": draw(st.booleans()), "concise": draw(st.booleans())}}
+    # a history of compilations in one process, the working directory changing in between (relative source names are
+    # relative to the map's sourceRoot, which is the working directory at the time of the compilation)
+    case["steps"] = draw(st.sampled_from([[None], [None], [None, None], [None, "ws/deeper"], ["ws", ""], ["", "ws/deeper/still", "ws"], ["ws/deeper", None, ""]]))
+    return case
 
 
 def vlq_strategy():
@@ -360,6 +419,13 @@ def shard(tier, seedv, k, n, col: Collector):
         if s["nmarkers"] >= 10 and (s["nsubs"] >= 1 or s["nfiles"] >= 2):
             col.nontriv(sha([f["text"] for f in s["files"]]))
         col.cls("files:%d" % s["nfiles"])
+        col.cls("compilations-in-one-process:%d" % len(case.get("steps") or [None]))
+        if len(set(x for x in (case.get("steps") or [None]) if x is not None)) >= 1 and len(case["steps"]) >= 2:
+            col.cls("has:working-directory-change-between-compilations")
+        if s.get("tricky"):
+            col.cls("has:line-with-import/def-like-text-in-comment-or-literal")
+        if any(s.get("styles") or []):
+            col.cls("has:module-using-qualified-pyteal-names")
         if any(f["text"].count("\n") > 550 for f in s["files"]):
             col.cls("has:file-over-550-lines (large VLQ deltas)")
         for b, d in res:
@@ -367,7 +433,7 @@ def shard(tier, seedv, k, n, col: Collector):
         if not res and len(col.samples) < 2 and s["nfiles"] >= 2 and all(len(f["text"]) < 1500 for f in s["files"]):
             col.sample({"files": {f["name"]: f["text"].split("\n") for f in s["files"]}, "cfg": case["cfg"]})
 
-    hyp_run(body, case_strategy(tier), N_EX[tier], seedv, key=lambda c: [c["cfg"], [f["text"] for f in c["sources"]["files"]]], col=col)
+    hyp_run(body, case_strategy(tier), N_EX[tier], seedv, key=lambda c: [c["cfg"], c.get("steps"), [f["text"] for f in c["sources"]["files"]]], col=col)
 
     def vbody(case):
         col.case()
